@@ -22,7 +22,7 @@ type C06Case struct {
 	Text        StreamText `json:"text"`
 	Chunks      []int      `json:"chunks"` // random schedule (cyclic)
 	EOFWithData bool       `json:"eof_with_data"`
-	Files       bool       `json:"files"` // also compare File(plain), File(.gz), File(nonexistent)
+	Files       bool       `json:"files"`           // also compare File(plain), File(.gz), File(nonexistent)
 	Light       bool       `json:"light,omitempty"` // huge input: only memory vs. the chunk schedule vs. CRLF
 }
 
